@@ -59,6 +59,9 @@ def apply_post(x, rules, fill_seed):
                     different sectors -> exactly degenerate spectra)
     ["shift", c]    square blocks: block += c * identity         (makes them invertible)
     ["zero", k]     the k-th stored block := 0
+    ["diag", step]  block := rectangular diagonal with the integers 1 + i + step * n on it (n the
+                    position of the block): exactly representable, distinct singular values
+                    (step 0: the same spectrum in every sector -> ties across sectors)
     """
     for rule in rules:
         name, args = rule[0], rule[1:]
@@ -77,6 +80,10 @@ def apply_post(x, rules, fill_seed):
                 nb = b + args[0] * np.eye(*b.shape) if b.shape[0] == b.shape[1] else b
             elif name == "zero":
                 nb = np.zeros_like(b) if n == args[0] % len(keys) else b
+            elif name == "diag":
+                nb = np.zeros(b.shape)
+                k = min(b.shape)
+                nb[np.arange(k), np.arange(k)] = 1 + np.arange(k) + int(args[0]) * n
             else:
                 raise ValueError(f"unknown post rule {rule}")
             x.blocks[s] = np.ascontiguousarray(nb).astype(dt)
@@ -237,7 +244,7 @@ def random_matrix(rng, dtypes=("float64", "complex128"), fermionic=None, fused=N
     m = {"spec": spec}
     r = rng.random()
     if r < degenerate:
-        m["post"] = [["same"]] if rng.random() < 0.6 else [["identity"]]
+        m["post"] = [[["same"]], [["same"]], [["identity"]], [["diag", 0]], [["diag", 2]]][int(rng.integers(0, 5))]
     elif r < degenerate + 0.25:
         m["post"] = [["lowrank", int(rng.integers(1, 3))]]
     elif r < degenerate + 0.28:
@@ -273,7 +280,8 @@ def degenerate_matrices():
                                 spec["oddpos"] = 5
                             if fermionic and rng.integers(0, 2):
                                 spec["pre_ops"] = _PENDING[int(rng.integers(1, len(_PENDING)))]
-                            yield {"spec": spec, "post": [["same"]] if rng.integers(0, 3) else [["identity"]]}
+                            r = int(rng.integers(0, 6))
+                            yield {"spec": spec, "post": [[["same"]], [["same"]], [["identity"]], [["diag", 0]], [["diag", 1]], [["diag", 3]]][r]}
 
 
 def herm_matrix(rng, sym, fermionic, dtype, fused=False):
